@@ -26,6 +26,7 @@ RULE += ("  " + 'Also: REST arguments of thousands of digits; the random, pair a
 RULE += ("  " + 'Also: a command (PWD, TYPE, CWD, CDUP, MLST, SYST, NOOP) between the 1xx mark and the data connection, modelled sequentially; accounts whose connection limit is held by other sessions.')
 RULE += ("  " + 'Also (round 7): a transfer command refused without a mark leaves its prepared data connection open and the next transfer command uses it (no new PASV / EPSV): the restart offset was for the refused command only (the model lets it lapse with every command but REST).')
 RULE += ("  " + 'Also (round 9): the peer ends the data connection of a transfer itself (FIN or RST after 0..150000 bytes of a 2 MB download, a 2500-entry listing, an upload) and carries on: one completion reply (4xx for the download), silence, PWD, next transfer through the same or a new listener, tree unchanged (monitor data_cut).')
+RULE += ("  " + "Also (round 10): see round 9 data_cut; C13's retry_after_rest covers the restart offset after a failed (451) transfer command.")
 ASSUMPTIONS = [
     "harness/ftpmodel.py is the specification; where it returns a set of outcomes any member is accepted",
     "the peer re-issues PASV/EPSV before a transfer whenever its previous data connection was not consumed by a "
